@@ -20,14 +20,17 @@ import vcheck as V
 import _place as P
 
 GUARDS = ["G_OnePending", "G_Quorum", "G_Reachable", "G_SyncAdd", "G_NoAddPending", "G_FreshID",
-          "G_Distinct", "G_LeftRaft", "G_CAS"]
+          "G_Distinct", "G_LeftRaft", "G_CAS", "G_Surplus"]
 TEMPLATE = os.path.join(V.VERIF, "spec", "MC_ZCoord.cfg")
 
 
-def make_cfg(ctx, name, N, R, max_epoch, max_id, off=None, count=False, max_down=64, max_unsynced=64, init_k=None):
+def make_cfg(ctx, name, N, R, max_epoch, max_id, off=None, count=False, max_down=64, max_unsynced=64, init_k=None,
+             parts=1, writers=1, rset=None):
     """One cfg from the template spec/MC_ZCoord.cfg (constants replaced textually)."""
     c = open(TEMPLATE).read()
-    sub = {"N": N, "R": R, "InitK": init_k or R, "MaxEpoch": max_epoch, "MaxID": max_id, "MaxDown": max_down, "MaxUnsynced": max_unsynced,
+    sub = {"N": N, "R": R, "InitK": init_k or R, "Parts": "{%s}" % ",".join(str(i) for i in range(parts)),
+           "Writers": "{%s}" % ",".join(str(i + 1) for i in range(writers)),
+           "RSet": "{%s}" % ",".join(str(x) for x in sorted(set(rset or [R]) | {R})), "MaxEpoch": max_epoch, "MaxID": max_id, "MaxDown": max_down, "MaxUnsynced": max_unsynced,
            "CountCalls": "TRUE" if count else "FALSE"}
     for k, v in sub.items():
         c, n = re.subn(r"(?m)^  %s = \S+$" % k, "  %s = %s" % (k, v), c)
@@ -45,7 +48,7 @@ def classify(seg, names):
     e = seg[-1]
     prev = None
     for x in seg[:-1]:
-        if x.get("ev") == "init" or (x.get("ev") == "update" and x.get("ok")):
+        if x.get("p", 0) == e.get("p", 0) and (x.get("ev") == "init" or (x.get("ev") == "update" and x.get("ok"))):
             prev = x["rec"]
     kind = "other"
     if e.get("ev") == "update" and prev is not None:
@@ -56,7 +59,8 @@ def classify(seg, names):
             kind = "finish"
         elif len(r["rem"]) > len(prev["rem"]):
             kind = "mark"
-    return {"event": e.get("ev"), "write": kind, "broken": "+".join(names)}
+    factor_changed = any(x.get("ev") == "setr" for x in seg)
+    return {"event": e.get("ev"), "write": kind, "broken": "+".join(names), "factor_changed": factor_changed}
 
 
 def run_trace(ctx, name, f, R):
@@ -77,8 +81,9 @@ def replay_and_validate(ctx, zr, job, stats, samples):
 def _replay(ctx, zr, job):
     name, N, R = job["name"], job["N"], job["R"]
     K = job.get("K") or R
-    cfg = make_cfg(ctx, "sim_%s.cfg" % name, N, R, 16, R + 12, count=True, init_k=K,
-                   max_down=1 if job["calm"] else 64, max_unsynced=1 if job["calm"] else 64)
+    cfg = make_cfg(ctx, "sim_%s.cfg" % name, N, R, 16, max(job.get("rset") or [R]) + 12, count=True, init_k=K,
+                   max_down=1 if job["calm"] else 64, max_unsynced=1 if job["calm"] else 64,
+                   parts=job.get("P", 1), writers=job.get("W", 1), rset=job.get("rset"))
     simdir = ctx.sub("sim-" + name)
     r = V.tlc(ctx, "MC_ZCoord", os.path.basename(cfg), workers=1, timeout=300,
               simulate="file=%s/sim,num=%d" % (simdir, job["num"]), depth=job["depth"], seed=job["seed"],
@@ -89,7 +94,8 @@ def _replay(ctx, zr, job):
         return None
     if r.violated:
         raise V.Inconclusive("simulation of %s violated %s (broken spec)" % (name, r.violated))
-    d, summ = P.drive(ctx, zr, "coordsim", name, ["-sim", simdir, "-R", str(R), "-N", str(N), "-K", str(K), "-seed", str(job["seed"])],
+    d, summ = P.drive(ctx, zr, "coordsim", name, ["-sim", simdir, "-R", str(R), "-N", str(N), "-K", str(K), "-P", str(job.get("P", 1)),
+                                                      "-W", str(job.get("W", 1)), "-seed", str(job["seed"])] + job.get("extra", []),
                       timeout=1800)
     if summ is None:
         return None
@@ -119,20 +125,23 @@ def _merge(ctx, job, out, stats, samples):
         stats["driver"][k] = stats["driver"].get(k, 0) + v
     stats["by_R"][str(R)] = stats["by_R"].get(str(R), 0) + summ["stats"].get("writes_ok", 0)
     # classify the real writes (coverage of the antecedents)
-    prev = None
+    prevs = {}
     for e in events:
         if e["ev"] in ("reset",):
-            prev = None
+            prevs = {}
         elif e["ev"] == "init":
-            prev = e["rec"]
-        elif e["ev"] == "update" and e["ok"] and prev is not None:
+            prevs[e["p"]] = e["rec"]
+        elif e["ev"] == "update" and e["ok"] and e["p"] in prevs:
+            prev = prevs[e["p"]]
             r2 = e["rec"]
             k = "add" if len(r2["nodes"]) > len(prev["nodes"]) else "finish" if len(r2["nodes"]) < len(prev["nodes"]) \
                 else "mark" if len(r2["rem"]) > len(prev["rem"]) else "other"
             stats["writes"][k] = stats["writes"].get(k, 0) + 1
             stats["distinct_writes"].add((R, json.dumps(prev["nodes"]), json.dumps(prev["rem"]), json.dumps(r2["nodes"]),
                                           json.dumps(r2["rem"]), r2["maxid"]))
-            prev = r2
+            prevs[e["p"]] = r2
+            st = job.get("stage", "single")
+            stats["writes_by_stage"][st] = stats["writes_by_stage"].get(st, 0) + 1
     if len(samples) < 2:
         for i, e in enumerate(events):
             if e["ev"] == "update" and e["ok"] and i > 3:
@@ -155,23 +164,29 @@ def _merge(ctx, job, out, stats, samples):
 # a good trace recorded once from the unchanged tree (coordsim -script, R=3 N=4): mark a lost replica,
 # finish after it left the raft group, add a replacement, add a surplus replica, planned removal.
 # The self-test corrupts copies of it, so it does not depend on the tree under test.
-FIXTURE = [{"N": 4, "R": 3, "alive": [1, 2, 3, 4], "ev": "reset", "info": "script R=3 N=4"},
-           {"ev": "init", "rec": {"nodes": [1, 2, 3], "ids": [[1, 1], [2, 2], [3, 3]], "rem": [], "maxid": 3, "epoch": 2}},
+FIXTURE = [{"K": 3, "N": 4, "P": 1, "R": 3, "W": 1, "alive": [1, 2, 3, 4], "ev": "reset", "info": "script R=3 N=4 P=1 W=1"},
+           {"ev": "init", "p": 0, "rec": {"nodes": [1, 2, 3], "ids": [[1, 1], [2, 2], [3, 3]], "rem": [], "maxid": 3, "epoch": 2}},
            {"ev": "down", "n": 2},
-           {"ev": "update", "ok": True, "oldgen": 2, "rec": {"nodes": [1, 2, 3], "ids": [[1, 1], [2, 2], [3, 3]], "rem": [[2, 2]], "maxid": 3, "epoch": 3}},
-           {"err": "", "ev": "call", "n": 0, "op": "migrate", "src": "cur"},
-           {"ev": "members", "m": [[1, 1], [3, 3]]},
-           {"ev": "update", "ok": True, "oldgen": 3, "rec": {"nodes": [1, 3], "ids": [[1, 1], [3, 3]], "rem": [], "maxid": 3, "epoch": 4}},
-           {"err": "", "ev": "call", "n": 0, "op": "finish", "src": "cur"},
-           {"ev": "update", "ok": True, "oldgen": 4, "rec": {"nodes": [1, 3, 4], "ids": [[1, 1], [3, 3], [4, 4]], "rem": [], "maxid": 4, "epoch": 5}},
-           {"err": "", "ev": "call", "n": 0, "op": "migrate", "src": "cur"},
-           {"ev": "members", "m": [[1, 1], [3, 3], [4, 4]]},
+           {"ev": "placein", "old": [[1, 2, 3]]},
+           {"ev": "update", "ok": True, "oldgen": 2, "p": 0, "rec": {"nodes": [1, 2, 3], "ids": [[1, 1], [2, 2], [3, 3]], "rem": [[2, 2]], "maxid": 3, "epoch": 3}},
+           {"err": "", "ev": "call", "n": 0, "op": "migrate", "p": 0, "src": "cur", "w": 1},
+           {"ev": "members", "m": [[1, 1], [3, 3]], "p": 0},
+           {"ev": "update", "ok": True, "oldgen": 3, "p": 0, "rec": {"nodes": [1, 3], "ids": [[1, 1], [3, 3]], "rem": [], "maxid": 3, "epoch": 4}},
+           {"err": "", "ev": "call", "n": 0, "op": "finish", "p": 0, "src": "cur", "w": 1},
+           {"ev": "placein", "old": [[1, 3]]},
+           {"ev": "update", "ok": True, "oldgen": 4, "p": 0, "rec": {"nodes": [1, 3, 4], "ids": [[1, 1], [3, 3], [4, 4]], "rem": [], "maxid": 4, "epoch": 5}},
+           {"err": "", "ev": "call", "n": 0, "op": "migrate", "p": 0, "src": "cur", "w": 1},
+           {"ev": "members", "m": [[1, 1], [3, 3], [4, 4]], "p": 0},
            {"ev": "up", "n": 2},
-           {"ev": "update", "ok": True, "oldgen": 5, "rec": {"nodes": [1, 3, 4, 2], "ids": [[1, 1], [2, 5], [3, 3], [4, 4]], "rem": [], "maxid": 5, "epoch": 6}},
-           {"err": "", "ev": "call", "n": 2, "op": "add", "src": "cur"},
-           {"ev": "members", "m": [[1, 1], [2, 5], [3, 3], [4, 4]]},
-           {"ev": "update", "ok": True, "oldgen": 6, "rec": {"nodes": [1, 3, 4, 2], "ids": [[1, 1], [2, 5], [3, 3], [4, 4]], "rem": [[1, 1]], "maxid": 5, "epoch": 7}},
-           {"err": "", "ev": "call", "n": 1, "op": "remove", "src": "cur"}]
+           {"ev": "update", "ok": True, "oldgen": 5, "p": 0, "rec": {"nodes": [1, 3, 4, 2], "ids": [[1, 1], [2, 5], [3, 3], [4, 4]], "rem": [], "maxid": 5, "epoch": 6}},
+           {"err": "", "ev": "call", "n": 2, "op": "add", "p": 0, "src": "cur", "w": 1},
+           {"ev": "members", "m": [[1, 1], [2, 5], [3, 3], [4, 4]], "p": 0},
+           {"ev": "update", "ok": True, "oldgen": 6, "p": 0, "rec": {"nodes": [1, 3, 4, 2], "ids": [[1, 1], [2, 5], [3, 3], [4, 4]], "rem": [[1, 1]], "maxid": 5, "epoch": 7}},
+           {"err": "", "ev": "call", "n": 1, "op": "remove", "p": 0, "src": "cur", "w": 1},
+           {"ev": "placein", "old": [[3, 4, 2]]},
+           {"ev": "begin", "op": "check"},
+           {"err": "", "ev": "call", "n": 0, "op": "check", "p": 0, "src": "cur", "w": 1},
+           {"ev": "end", "op": "check"}]
 
 
 def selftest(ctx, zr, stats):
@@ -202,7 +217,8 @@ def selftest(ctx, zr, stats):
         return [e for e in t if not (e["ev"] == "down")] + []
 
     def unsynced_add(t):          # node 1 answers "not in sync" just before the replacement is added
-        return t[:ups[2]] + [{"ev": "unsync", "n": 1}] + t[ups[2]:]
+        k = ups[2] - 1 if t[ups[2] - 1]["ev"] == "placein" else ups[2]
+        return t[:k] + [{"ev": "unsync", "n": 1}] + t[k:]
 
     def two_adds(t):              # the replacement write adds two nodes at once
         r = t[ups[2]]["rec"]
@@ -243,6 +259,29 @@ def selftest(ctx, zr, stats):
         raise V.Inconclusive("binding self-test failed: %s (mismatches %s)" % (got, mism))
 
 
+def isolate_stale_factor(ctx, zr, stats):
+    """Known finding stale-factor-copy, on purpose: the factor is raised between a coordinator's read of a
+    record and its write.  A failure here must carry exactly the finding's signature."""
+    script = ('PlanAdd(1,0,2,"cur");RaftJoin(0,2);Snapshot(1,0);ChangeFactor(3);PlanRemove(1,0,1,"snap")')
+    d, summ = P.drive(ctx, zr, "coordsim", "isolate-stale-factor", ["-script", script, "-R", "1", "-N", "3", "-stalefactor"])
+    if summ is None:
+        ctx.skipped += 1
+        return
+    f = os.path.join(d, "t.0.ndjson")
+    consumed, mism, res = run_trace(ctx, "isolate-stale-factor", f, 1)
+    events = V.read_ndjson(f)
+    stats["isolate_stale_factor"] = {"mismatches": len(mism)}
+    for line, exp in mism:
+        s, seg = V.segment_of(events, line)
+        names = P.clause_names(exp)
+        sig = classify(seg, names)
+        sig["stale_copy_across_factor_change"] = True
+        segf = os.path.join(d, "fail-%d.ndjson" % line)
+        V.write_ndjson(segf, seg)
+        V.report_failure(ctx, sig, "factor raised between the coordinator's read and its write: %s: %s" % (
+            ", ".join(names), json.dumps(seg[-1], sort_keys=True)), files=[segf], script={"coordsim": script})
+
+
 def run(ctx):
     zr = P.harness(ctx, ["coordsim.go"])
     quick = ctx.quick()
@@ -258,6 +297,17 @@ def run(ctx):
     for N, R, E, K in inst:
         nm = "mc-N%d-R%d" % (N, R) + ("" if K == R else "-K%d" % K)
         jobs.append((nm, make_cfg(ctx, nm.replace("-", "_") + ".cfg", N, R, E, R + 3, init_k=K), None))
+    # grown scope (thorough tier): two partitions sharing the nodes, two coordinators (PD leader
+    # fail-over with a stale old leader), replication factor changed while migrations are in flight
+    grown = [] if quick else [
+        ("mc-2parts-N3-R2", dict(N=3, R=2, max_epoch=3, max_id=5, parts=2)),
+        ("mc-2writers-N4-R3", dict(N=4, R=3, max_epoch=4, max_id=6, writers=2)),
+        ("mc-factor-3to2-N4", dict(N=4, R=3, max_epoch=5, max_id=6, rset=[2, 3])),
+        ("mc-factor-1to3-N4", dict(N=4, R=1, max_epoch=5, max_id=6, rset=[1, 3])),
+        ("mc-factor-2to4-N5", dict(N=5, R=2, max_epoch=4, max_id=7, rset=[2, 4])),
+    ]
+    for nm, kw in grown:
+        jobs.append((nm, make_cfg(ctx, nm.replace("-", "_") + ".cfg", **kw), None))
     for g in GUARDS:
         jobs.append(("mut-" + g, make_cfg(ctx, "mut_%s.cfg" % g, mut_inst[0], mut_inst[1], mut_inst[2], mut_inst[1] + 3, off=g), g))
 
@@ -303,7 +353,7 @@ def run(ctx):
         ", ".join("%s %d states" % (m["cfg"], m["distinct"]) for m in model_runs), mutants))
 
     # ---- (B) TLC behaviours replayed on the real coordinator
-    stats = dict(events=0, segments=0, labels=0, http=0, mismatches=0, driver={}, writes={}, by_R={},
+    stats = dict(events=0, segments=0, labels=0, http=0, mismatches=0, driver={}, writes={}, by_R={}, writes_by_stage={},
                  distinct_writes=set())
     samples = []
     rjobs = []
@@ -323,7 +373,29 @@ def run(ctx):
                 rjobs.append(dict(name="N%dR%dK%d%s%d" % (N, R, K, "c" if calm else "w", c), N=N, R=R, K=K,
                                   num=num // chunks // 2 + 1,
                                   depth=depth, calm=calm, seed=ctx.seed * 100 + c))
+    if not quick:
+        sd = ctx.seed * 100
+        for i, (N, R, K, P_, num) in enumerate([(4, 2, 2, 2, 300), (4, 3, 3, 2, 300), (5, 3, 2, 3, 200), (6, 4, 3, 2, 200)]):
+            for calm in (True, False):
+                rjobs.append(dict(name="multi%d%s" % (i, "c" if calm else "w"), stage="multi-partition", N=N, R=R, K=K, P=P_,
+                                  num=num // 2, depth=depth, calm=calm, seed=sd + 50 + i))
+        for i, (N, R, K, num) in enumerate([(4, 3, 3, 400), (5, 3, 2, 300), (4, 2, 2, 300), (6, 5, 3, 300)]):
+            for calm in (True, False):
+                rjobs.append(dict(name="failover%d%s" % (i, "c" if calm else "w"), stage="two-coordinators", N=N, R=R, K=K, W=2,
+                                  num=num // 2, depth=depth, calm=calm, seed=sd + 60 + i))
+        for i, (N, R, rset, num) in enumerate([(4, 3, [2, 3], 300), (4, 1, [1, 3], 300), (5, 2, [2, 4], 300), (6, 5, [3, 5], 200),
+                                               (5, 3, [1, 3, 4], 300)]):
+            for calm in (True, False):
+                rjobs.append(dict(name="factor%d%s" % (i, "c" if calm else "w"), stage="factor-change", N=N, R=R, K=R, rset=rset,
+                                  num=num // 2, depth=depth, calm=calm, seed=sd + 70 + i))
+        # the REAL rebalanceNamespace (5 s per move): few, short behaviours, many processes
+        for i in range(12):
+            N, R, P_ = [(3, 2, 2), (4, 2, 3), (4, 3, 2), (5, 3, 3)][i % 4]
+            rjobs.append(dict(name="balance%d" % i, stage="balance-round", N=N, R=R, K=R, P=P_, num=3, depth=24, calm=True,
+                              seed=sd + 80 + i, extra=["-balance"]))
     V.parallel(lambda j: replay_and_validate(ctx, zr, j, stats, samples), rjobs, n=8 if quick else 12)
+    if not quick:
+        isolate_stale_factor(ctx, zr, stats)
     if stats["segments"] == 0:
         raise V.Inconclusive("no behaviour could be replayed and validated")
     if not quick or ctx.seed % 4 == 1:
@@ -334,7 +406,8 @@ def run(ctx):
         samples=samples or [{"note": "no sample"}],
         model_runs=model_runs, spec_mutants_refuted_by=mutants, model_action_coverage=action_cov,
         events_validated=stats["events"], labels_replayed=stats["labels"],
-        real_writes_by_kind=stats["writes"], real_writes_by_R=stats["by_R"],
+        real_writes_by_kind=stats["writes"], real_writes_by_R=stats["by_R"], real_writes_by_stage=stats["writes_by_stage"],
+        isolate_stale_factor=stats.get("isolate_stale_factor"),
         distinct_nontrivial=len(stats["distinct_writes"]),
         rule="distinct_nontrivial = different (R, previous record, written record) transitions the real coordinator "
              "performed and TLC accepted as guarded Mark/Add/Finish steps",
@@ -343,7 +416,12 @@ def run(ctx):
         checker_cmd="tlc -config ZCoordTrace.cfg ZCoordTrace (ZR_TRACE=<trace> ZR_R=<R>)",
     )
     V.write_evidence(ctx, "model_checking", cov, assumptions=[
-        "one partition per namespace; the replication factor is fixed within a scenario; scenarios start from "
+        "quick tier: one partition, one coordinator, fixed factor.  Thorough tier adds: 2-3 partitions of one "
+        "namespace sharing the nodes (initial layout from the real v2 placement over all nodes but the last), two "
+        "coordinator objects over one register (both keep fresh node tables; staleness = their record copies), "
+        "replication factor changed through the real ChangeNamespaceMetaParam (the coordinators re-read their "
+        "copies after a change - see known finding stale-factor-copy), and the real rebalanceNamespace on a few "
+        "short behaviours (5 s per move; the raft groups follow the metadata while it runs).  Scenarios start from "
         "a layout of K replicas on nodes 1..K, K = R or a smaller strict majority of R (a partition that lost "
         "replicas earlier)",
         "a node that is down neither is in the coordinator's node table nor answers HTTP (the two are not varied "
